@@ -546,6 +546,9 @@ fn display_interpolation(
 impl WriteSource for pr::SwitchCase {
     fn write(&self, opt: WriteOpt) -> Option<String> {
         let mut r = String::new();
+        // both sides are read as a call or an operator expression: a function needs parentheses
+        let mut opt = opt;
+        opt.context_strength = opt.context_strength.max(8);
         r += &self.condition.write(opt.clone())?;
         r += " => ";
         r += &self.value.write(opt)?;
